@@ -28,6 +28,8 @@ impl ExecutionFrontier {
                 return;
             }
 
+            #[cfg(feature = "verif")]
+            crate::verif::point(crate::verif::pt::FRONTIER_ADVANCE, end);
             let current = self.frontier.fetch_max(end, Ordering::AcqRel);
             start = max(current, end);
         }
@@ -43,7 +45,11 @@ impl ExecutionFrontier {
             return;
         }
 
+        #[cfg(feature = "verif")]
+        crate::verif::point(crate::verif::pt::FRONTIER_STORE, index);
         self.executed[index].store(true, Ordering::Release);
+        #[cfg(feature = "verif")]
+        crate::verif::point(crate::verif::pt::FRONTIER_PUBLISH_RELOAD, index);
         // Reload after publishing. The frontier may have reached `index` between the first load
         // and the store; using the stale value would leave the newly filled gap unadvanced.
         let frontier = self.frontier.load(Ordering::Acquire);
@@ -106,9 +112,17 @@ impl SchedulerContext {
         // Publish invalidation before making the index claimable. Finality advances contiguously
         // and checks status plus this timestamp under transaction locks, so a validation predating
         // this rewind cannot enter the stable prefix afterward.
+        #[cfg(feature = "verif")]
+        crate::verif::point(crate::verif::pt::REWIND_ENTER, index);
         let timestamp = self.logical_clock.fetch_add(1, Ordering::AcqRel);
+        #[cfg(feature = "verif")]
+        crate::verif::point(crate::verif::pt::REWIND_LOWER_TS, index);
         self.lower_timestamps[index].fetch_max(timestamp, Ordering::AcqRel);
+        #[cfg(feature = "verif")]
+        crate::verif::point(crate::verif::pt::REWIND_CURSOR, index);
         let previous = self.validation.rewind(index);
+        #[cfg(feature = "verif")]
+        crate::verif::event(crate::verif::Event::Rewind { index, ts: timestamp, previous });
         if previous > index {
             self.validation_resets.fetch_add(1, Ordering::Relaxed);
         }
@@ -141,6 +155,8 @@ impl SchedulerContext {
 
     #[inline]
     pub(super) fn publish_finality(&self, index: usize) {
+        #[cfg(feature = "verif")]
+        crate::verif::event(crate::verif::Event::PublishFinality { index });
         self.finality.publish(index);
     }
 
@@ -151,6 +167,8 @@ impl SchedulerContext {
 
     #[inline]
     pub(super) fn publish_commit(&self, index: usize) {
+        #[cfg(feature = "verif")]
+        crate::verif::event(crate::verif::Event::PublishCommit { index });
         self.committed.publish(index);
     }
 
